@@ -674,9 +674,24 @@ class Check(PropertyCheck):
         hist_start = 0
         ledger = VersionLedger(sv)
         reopened_foreign = 0
+        alive = set()      # slots holding a BuildDB object according to the ops themselves
+        orphan_lines = 0
         for i, line in enumerate(lines):
             if line == "reset":
                 hist_start = i
+            w = line.split(" ")
+            if w[0] in ("reset", "crash"):
+                alive.clear()
+            elif w[0] == "new":
+                alive.add(w[1])
+            # a connection left open on a file that another client version unlinked and recreated works on an orphaned
+            # inode: the model forgets it (`forgetOpen`) and answers no-conn although the object exists — outside the model
+            orphaned = model_ok and m[1][i] == "no-conn" and len(w) > 1 and w[1] in alive and hout[i] != "no-conn"
+            if w[0] == "drop" and len(w) > 1:
+                alive.discard(w[1])
+            if orphaned:
+                orphan_lines += 1
+                continue
             # the version clause, on every stream (structured, unstructured, fixed scenarios)
             fv = ledger.observe(line, hout[i])
             if fv is not None:
@@ -709,6 +724,7 @@ class Check(PropertyCheck):
                     f.update(classify(line, hout[i], exp[i]))
                     if len(res.oracle_failures) < 40:
                         res.oracle_failures.append(f)
+        res.distribution["c03db_orphaned_inode_lines_not_compared"] = orphan_lines
         res.evaluations += len(lines)
         res.distinct_nontrivial += nontriv
         res.distribution["db_ops"] = ops
